@@ -9,8 +9,9 @@ and once, what a top-level `(define …)` form of the subset of Scheme those pro
 equal to the image of the **regenerated** datum (`Gen.PreludeProcs.procs`):
 
 * `parseDef : Datum → Option Def` reads a definition into a first-order syntax tree `Expr`
-  (variables, constants, `if`, two-armed `and` / `or`, `cond` as nested `if`, calls with one or two
-  operands, `apply`, a one-binding `letrec` of a `lambda`, `begin`); anything else is `none`.
+  (variables, constants — integers, booleans, `'()`, a quoted symbol —, `if`, two-armed `and` / `or`,
+  `cond` as nested `if`, calls with one, two or three operands, `apply`, a one-binding `letrec` of a
+  `lambda` with fixed formals, `begin`); anything else is `none`.
   `(caar x)` is read as `(car (car x))`, the body of the prelude's own `caar`
   (`Store.Prelude.agree_caar` pins that definition).
 * `evalE` evaluates an `Expr`: operands left to right (`compile.rs`), a test is true unless it is `#f`,
@@ -34,8 +35,9 @@ inductive Expr
   | or2 (a b : Expr)
   | call1 (f : String) (a : Expr)
   | call2 (f : String) (a b : Expr)
+  | call3 (f : String) (a b c : Expr)
   | apply (f : Expr) (lst : Expr)
-  | letrec1 (name : String) (formal : String) (fbody body : Expr)
+  | letrec1 (name : String) (formals : List String) (fbody body : Expr)
   | seq (a b : Expr)
 deriving DecidableEq, Repr, Inhabited
 
@@ -52,6 +54,12 @@ def symName : Datum → Option String
   | .sym x => some (String.ofList x)
   | _ => none
 
+/-- `(x …)`: a proper list of symbols (the formals of a `letrec`-bound `lambda`) -/
+def symList : Datum → Option (List String)
+  | .nil => some []
+  | .pair (.sym x) more => do some (String.ofList x :: (← symList more))
+  | _ => none
+
 /- the expressions; `cond` clauses and `begin` bodies are read by the two helpers (mutual structural
    recursion over the datum) -/
 mutual
@@ -64,6 +72,7 @@ def parseExpr : Datum → Option Expr
     if f == "quote" then
       match rest with
       | .pair .nil .nil => some (.const .nil)
+      | .pair (.sym x) .nil => some (.const (.sym x))
       | _ => none
     else if f == "if" then
       match rest with
@@ -87,10 +96,10 @@ def parseExpr : Datum → Option Expr
     else if f == "letrec" then
       match rest with
       | .pair (.pair (.pair (.sym name)
-            (.pair (.pair (.sym lam) (.pair (.pair (.sym formal) .nil) (.pair fbody .nil))) .nil)) .nil)
+            (.pair (.pair (.sym lam) (.pair formals (.pair fbody .nil))) .nil)) .nil)
           (.pair body .nil) =>
         if String.ofList lam == "lambda" then do
-          some (.letrec1 (String.ofList name) (String.ofList formal) (← parseExpr fbody) (← parseExpr body))
+          some (.letrec1 (String.ofList name) (← symList formals) (← parseExpr fbody) (← parseExpr body))
         else none
       | _ => none
     else if f == "caar" then
@@ -101,6 +110,7 @@ def parseExpr : Datum → Option Expr
       match rest with
       | .pair a .nil => do some (.call1 f (← parseExpr a))
       | .pair a (.pair b .nil) => do some (.call2 f (← parseExpr a) (← parseExpr b))
+      | .pair a (.pair b (.pair c .nil)) => do some (.call3 f (← parseExpr a) (← parseExpr b) (← parseExpr c))
       | _ => none
   | _ => none
 
@@ -138,10 +148,10 @@ def parseDef : Datum → Option Def
 
 /-! ## evaluation -/
 
-/-- a `letrec`-bound local procedure: one formal, its body, the values it closed over -/
+/-- a `letrec`-bound local procedure: its formals, its body, the values it closed over -/
 structure LFn where
   name : String
-  formal : String
+  formals : List String
   body : Expr
   env : List (String × VCell)
 deriving Inhabited
@@ -208,13 +218,18 @@ def evalE (P : String → Option Callee) (H : Handlers) (lvl : Nat) :
     let (s, x) ← evalE P H lvl a venv lenv s
     let (s, y) ← evalE P H lvl b venv lenv s
     callNamed P H venv lenv f s [x, y]
+  | .call3 f a b c, venv, lenv, s => do
+    let (s, x) ← evalE P H lvl a venv lenv s
+    let (s, y) ← evalE P H lvl b venv lenv s
+    let (s, z) ← evalE P H lvl c venv lenv s
+    callNamed P H venv lenv f s [x, y, z]
   | .apply f l, venv, lenv, s => do
     let (s, fv) ← evalE P H lvl f venv lenv s
     let (s, lv) ← evalE P H lvl l venv lenv s
     let args ← listElems lvl s lv
     applyVal P fv s args
-  | .letrec1 name formal fbody body, venv, lenv, s =>
-    evalE P H lvl body venv (⟨name, formal, fbody, venv⟩ :: lenv) s
+  | .letrec1 name formals fbody body, venv, lenv, s =>
+    evalE P H lvl body venv (⟨name, formals, fbody, venv⟩ :: lenv) s
   | .seq a b, venv, lenv, s => do
     let (s, _) ← evalE P H lvl a venv lenv s
     evalE P H lvl b venv lenv s
@@ -240,9 +255,9 @@ def handlers (P : String → Option Callee) (defs : List Def) : Nat → Handlers
         let (s, venv) ← bindArgs d s args
         evalE P (handlers P defs l) l d.body venv [] s,
       localFn := fun lf s args =>
-        match args with
-        | [x] => evalE P (handlers P defs l) l lf.body ((lf.formal, x) :: lf.env) [lf] s
-        | _ => .err .arity }
+        if args.length = lf.formals.length then
+          evalE P (handlers P defs l) l lf.body (lf.formals.zip args ++ lf.env) [lf] s
+        else .err .arity }
 
 /-- the Scheme-defined global `name` at fuel `lvl` -/
 def interp (P : String → Option Callee) (defs : List Def) (lvl : Nat) (name : String) : Callee :=
@@ -252,7 +267,7 @@ def interp (P : String → Option Callee) (defs : List Def) (lvl : Nat) (name : 
 
 /-! ## the builtins the library procedures call -/
 
-/-- `(+ a b)` on exact integers (the only use is `(+ n 1)` in `length`) -/
+/-- `(+ a b)` on exact integers (the only uses are `(+ n 1)` and `(+ n 2)` in `length`) -/
 def plusB (s : Store) : List VCell → Res
   | [a, b] => do
     match (← s.get a), (← s.get b) with
